@@ -973,7 +973,7 @@ fn gen_scenario(r: &mut Rng, stream: u32) -> Scenario {
     }
     if matches!(stream, 4 | 6) || r.chance(1, 6) {
         if r.chance(1, 2) { pre.push(Op::Certs(Some(gen_certs(r, edge)))); }
-        if r.chance(1, 2) { let n = r.range(1, 3); pre.push(Op::Wd(Some((0..n).map(|_| (r.range(1, 14), b64(if edge { r.u64_edge() } else { r.range(0, 3_000_000) }))).collect()))); }
+        if r.chance(1, 2) { let n = r.range(1, 3); pre.push(Op::Wd(Some((0..n).map(|_| (r.range(1, 11), b64(if edge { r.u64_edge() } else { r.range(0, 3_000_000) }))).collect()))); }
         if r.chance(1, 3) { pre.push(Op::Don(b64(if edge { r.u64_edge() } else { r.range(0, 2_000_000) }))); }
         if r.chance(1, 4) { pre.push(Op::Treas(b64(r.below(3) * 1_000_000_000))); }
         if r.chance(1, 8) { pre.push(Op::Certs(None)); }
